@@ -15,6 +15,14 @@ CHECKS = {
          "Trusted: the reference evaluator in vlib/strlang.py (written from the manual), Python's re for match/resubst. "
          "Cases the manual leaves undefined are skipped and counted.",
          "3 (C17)", "E8 strlang"),
+ "C11": ("exploration",
+         "Hypothesis operation sequences on a real directory; differential (cached vs uncached hash) + bijection canonical-form<->hash over all visited states (independent canonicaliser)",
+         "After every generated file-system operation the cached and the uncached directory hash must agree and the "
+         "map canonical tree <-> hash must stay a bijection over all states of the run and over re-created copies "
+         "(other creation order/timestamps). ~4000 sequences of up to 42 operations per quick run.",
+         "Trusted: vlib/treecanon.py as definition of 'names, types, permission bits, contents, link targets'; the kernel "
+         "updates ctime on every change and the harness gives every mutation a fresh mtime (the property's stated premise).",
+         "3 (C11)", "E4 treecanon"),
 }
 
 NOT_YET = {}
@@ -55,6 +63,8 @@ def main():
         "engines": [
             {"name": "runner", "path": "vlib/runner.py", "serves_properties": sorted(CHECKS),
              "kind_free_text": "16-shard Hypothesis driver, evidence merge, known-finding exclusion, replay"},
+            {"name": "E4 treecanon", "path": "vlib/treecanon.py", "serves_properties": ["C01", "C05", "C06", "C07", "C08", "C11", "C12", "C15", "C16"],
+             "kind_free_text": "independent canonical form of a directory tree (comparison oracle)"},
             {"name": "E8 strlang", "path": "vlib/strlang.py", "serves_properties": ["C17"],
              "kind_free_text": "reference evaluator + renderer + strategies for the string/condition language"},
         ],
